@@ -492,3 +492,11 @@ impl SqueezeParams {
         }
     }
 }
+
+/// Verification hook H7: re-export of the squeeze and RCT kernels.
+#[cfg(jxl_oxide_verif)]
+pub mod verif {
+    pub use super::rct::verif as rct;
+    pub use super::squeeze::verif as squeeze;
+    pub use super::squeeze::{inverse_h, inverse_v};
+}
